@@ -179,8 +179,6 @@ Lemma byte_rand_length frame : length frame = 46 -> length (randomize_bytes fram
 Proof. intros H. unfold randomize_bytes. rewrite zip_with_length; [exact H | rewrite H; reflexivity]. Qed.
 
 (** * the variants agree *)
-Definition hardN (s : Z) : N := b2n (hard s).
-
 Lemma variants_agree_soft_bits_lemma s :
   Forall (fun x => (-127 <= x <= 127)%Z /\ x <> 0%Z) s ->
   map hardN (derandomize_soft s) = randomize_bits (map hardN s).
